@@ -516,7 +516,40 @@ class State:
                 if ss & live and not ss <= live:
                     # keep only facts entirely over live syms; others are dropped below
                     pass
-        self.facts = {f for f in self.facts if set(f.t) <= live}
+        kept = set()
+        projected = []
+        for f in self.facts:
+            dead = [x for x in f.t if x not in live]
+            if not dead:
+                kept.add(f)
+                continue
+            # a fact that mentions dead symbols is weakened to one over live symbols only, by replacing every dead
+            # symbol by the bound that makes the inequality weakest (sum a_i*x_i + c <= 0): e.g. `pos + 1 + i - n <= 0`
+            # with pos >= 0 dead leaves `i + 1 - n <= 0`
+            if len(dead) > 2 or len(f.t) - len(dead) < 2:
+                continue
+            t = dict(f.t)
+            c = f.c
+            ok = True
+            for x in dead:
+                a = t.pop(x)
+                iv = self.iv.get(x)
+                if iv is None:
+                    r = self.st.range(x)
+                    lo_, hi_ = r[0], r[1]
+                else:
+                    lo_, hi_ = D.lo(iv), D.hi(iv)
+                b = lo_ if a > 0 else hi_
+                if abs(b) >= (1 << 62):
+                    ok = False
+                    break
+                c += a * b
+            if ok:
+                projected.append(Lin(t, c))
+        self.facts = kept
         for coll in (self.iv, self.lin, self.cmpd, self.ovf, self.notd, self.absd, self.discr, self.when):
             for k in [k for k in coll if k not in live]:
                 del coll[k]
+        for f in projected:
+            if f not in self.facts and len(self.facts) < MAX_FACTS:
+                self.facts.add(f)
